@@ -19,7 +19,7 @@ CONSTANTS
     MaxSur = 1
     MaxRo = 1
     MaxComps = {maxc}
-    Fns = {{"one", "two", "id", "neg", "dbl", "inc", "step", "dsum", "add", "sub", "mul", "sel", "mad"}}
+    Fns = {{"one", "two", "id", "neg", "dbl", "inc", "step", "dsum", "add", "sub", "mul", "sel", "cut", "mad"}}
     UseData = TRUE
     ForwardRefs = {fwd}
     WithJac = FALSE
